@@ -753,7 +753,7 @@ namespace xsimd
         template <class A>
         XSIMD_INLINE void transpose(batch<uint16_t, A>* matrix_begin, batch<uint16_t, A>* matrix_end, requires_arch<generic>) noexcept
         {
-            transpose(reinterpret_cast<batch<int16_t, A>*>(matrix_begin), reinterpret_cast<batch<int16_t, A>*>(matrix_end), A {});
+            detail::transpose_as<int16_t>(matrix_begin, matrix_end);
         }
 
         template <class A, class = typename std::enable_if<batch<int8_t, A>::size == 16, void>::type>
@@ -843,7 +843,27 @@ namespace xsimd
         template <class A>
         XSIMD_INLINE void transpose(batch<uint8_t, A>* matrix_begin, batch<uint8_t, A>* matrix_end, requires_arch<generic>) noexcept
         {
-            transpose(reinterpret_cast<batch<int8_t, A>*>(matrix_begin), reinterpret_cast<batch<int8_t, A>*>(matrix_end), A {});
+            detail::transpose_as<int8_t>(matrix_begin, matrix_end);
+        }
+
+        namespace detail
+        {
+            // The rows are converted with bitwise_cast: accessing the storage through a batch<U, A>* would
+            // violate the aliasing rules and lets the optimizer drop the transposition.
+            template <class U, class A, class T>
+            XSIMD_INLINE void transpose_as(batch<T, A>* matrix_begin, batch<T, A>* matrix_end) noexcept
+            {
+                constexpr std::size_t size = batch<T, A>::size;
+                static_assert(size == batch<U, A>::size, "same lane count");
+                assert((matrix_end - matrix_begin == size) && "correctly sized matrix");
+                (void)matrix_end;
+                batch<U, A> rows[size];
+                for (std::size_t i = 0; i < size; ++i)
+                    rows[i] = ::xsimd::bitwise_cast<U>(matrix_begin[i]);
+                transpose(rows, rows + size, A {});
+                for (std::size_t i = 0; i < size; ++i)
+                    matrix_begin[i] = ::xsimd::bitwise_cast<T>(rows[i]);
+            }
         }
 
     }
